@@ -4,7 +4,7 @@
    is enabled -- the harness waits for exactly that quiescence), and the monitors of model/IngestSpec.v are run
    over the OBSERVED events. *)
 From Coq Require Import List NArith ZArith Bool.
-From Qryn Require Import model.Ingest model.PushHandler model.IngestSpec.
+From Qryn Require Import model.Ingest model.PushHandler model.IngestSpec model.IngestSched model.IngestFresh.
 Import ListNotations.
 
 (* ---------------------------------------------------------------- compact literals *)
@@ -101,6 +101,35 @@ Fixpoint run_ops (g : gstate) (dls : list (list bool)) (ops : list op) : option 
       end
   end.
 
+(* the freshness hypothesis of C02's blocks_have_distinct_rows (model/IngestFresh.v step_fresh) evaluated along the
+   script: only the external operations can violate it (the steps of settle are worker steps) *)
+Definition own_tab (l : list (N * N * okey)) (rid : N) : okey :=
+  match find (fun e => N.leb (fst (fst e)) rid && N.ltb rid (fst (fst e) + snd (fst e))) l with
+  | Some e => snd e
+  | None => KEnv 0
+  end.
+(* req_owned with a fast path for the usual case of ascending row ids (nodupb is quadratic; requests have up to
+   11000 rows); equal to req_owned: req_owned_fast_eq in proofs/IngestPromises.v *)
+Fixpoint ascending (l : list N) : bool :=
+  match l with
+  | x :: ((y :: _) as t) => N.ltb x y && ascending t
+  | _ => true
+  end.
+Definition req_owned_fast (own : N -> okey) (k : okey) (r : req) : bool :=
+  forallb (fun rid => okey_eqb (own rid) k) (rids_of r) &&
+  (if ascending (rids_of r) then true else nodupb N.eqb (rids_of r)).
+Fixpoint ops_fresh (own : N -> okey) (g : gstate) (dls : list (list bool)) (ops : list op) : bool :=
+  match ops with
+  | [] => true
+  | o :: rest =>
+      (* the request as submitted (row ids before the reduction of the lossy columns) *)
+      (match o with OReq s k n r sz => env_new g n && req_owned_fast own (KEnv n) r | _ => true end) &&
+      match grun g (op_acts o) with
+      | None => true
+      | Some (g1, _) => let '(g2, dls', _) := settle_all g1 0 dls in ops_fresh own g2 dls' rest
+      end
+  end.
+
 (* ---------------------------------------------------------------- event equality *)
 Definition obool_eqb (a b : option bool) : bool :=
   match a, b with
@@ -148,7 +177,8 @@ Record case := {
   c_drained : bool;                  (* the script ends with a complete drain (every Do answered, nothing left to flush, no worker
                                         stopped, no request accounted with size 0): every promise must have been completed *)
   c_ops : list op;
-  c_obs : list (list event)          (* what the harness observed after each operation *)
+  c_obs : list (list event);         (* what the harness observed after each operation *)
+  c_own : list (N * N * okey)        (* runs of row ids (first, count) and the request that submitted them *)
 }.
 
 Definition op_wf (o : op) : bool :=
@@ -192,11 +222,6 @@ Fixpoint sends (es : list event) : list (kind * block) :=
   | _ :: t => sends t
   end.
 (* good_block_b modulo the lossy columns: row ids are read off the key column, which is never lossy *)
-Fixpoint ascending (l : list N) : bool :=
-  match l with
-  | x :: ((y :: _) as t) => N.ltb x y && ascending t
-  | _ => true
-  end.
 Definition good_block_red (k : kind) (b : block) : bool :=
   let rids := map fst (nth (keycol k) b []) in
   block_eqb b (red k (table_of (ncols k) rids)) && (if ascending rids then true else nodupb N.eqb rids).
@@ -207,6 +232,11 @@ Definition c02_violation (c : case) : bool :=
     negb (is_some (run_mon (smon_step MClean) (smon_init n) es) &&
           forallb (fun kb => good_block_red (fst kb) (snd kb)) (sends es))
   else false.
+
+(* the script meets the freshness hypothesis (the generator is supposed to draw fresh row ids) *)
+Definition case_fresh (c : case) : bool :=
+  ops_fresh (own_tab (c_own c)) (ginit (c_cfg c) (c_attempts c)) (c_dials c) (c_ops c).
+Definition fresh_cases (cs : list case) : list Z := map c_id (filter case_fresh cs).
 
 Definition mismatches (cs : list case) : list Z := map c_id (filter model_mismatch cs).
 Definition c01_violations (cs : list case) : list Z := map c_id (filter c01_violation cs).
@@ -301,6 +331,27 @@ Fixpoint run_ops2 (g : gstate) (dls : list (list bool)) (ops : list op2) : optio
       end
   end.
 
+(* the state the model ends in, and freshness along the script *)
+Fixpoint final2 (g : gstate) (dls : list (list bool)) (ops : list op2) : option gstate :=
+  match ops with
+  | [] => Some g
+  | o :: rest =>
+      match gstep g (op2_act o) with
+      | None => None
+      | Some (g1, _) => let '(g2, dls', _) := settle2 20 g1 dls in final2 g2 dls' rest
+      end
+  end.
+Fixpoint ops2_fresh (own : N -> okey) (g : gstate) (dls : list (list bool)) (ops : list op2) : bool :=
+  match ops with
+  | [] => true
+  | o :: rest =>
+      step_fresh own g (op2_act o) &&
+      match gstep g (op2_act o) with
+      | None => true
+      | Some (g1, _) => let '(g2, dls', _) := settle2 20 g1 dls in ops2_fresh own g2 dls' rest
+      end
+  end.
+
 (* what is visible of an event at level 2 *)
 Inductive vis :=
  | VDial (s : nat) (ok : bool) | VSwp (s : nat) | VSnd (s : nat) (rows : list N) | VDn (s : nat) (ok : bool)
@@ -359,17 +410,28 @@ Record case2 := {
   d_drained : bool;
   d_handlers : nat;                  (* number of HTTP pushes of the script *)
   d_ops : list op2;
-  d_obs : list (list event)          (* observed: EDial / ESwap / ESend (table of the recognised rows) / EDone / EAnswer *)
+  d_obs : list (list event);         (* observed: EDial / ESwap / ESend (table of the recognised rows) / EDone / EAnswer *)
+  d_own : list (N * N * okey)        (* runs of row ids and the sub-request (push, position) that submitted them *)
 }.
 
 Definition op2_wf (o : op2) : bool :=
   match o with O2Http items => forallb item_wf items | _ => true end.
 
+(* besides the events: when the harness saw the system drained (a whole round of PlanFlush on every worker did
+   nothing) the model must have reached a state in which nothing is left to do -- all_done of model/IngestSched.v,
+   the terminal states of the scheduler of C01's every_push_is_answered_exactly_once *)
 Definition model_mismatch2 (c : case2) : bool :=
   match run_ops2 (ginit (d_cfg c) (d_attempts c)) (d_dials c) (d_ops c) with
   | None => true
-  | Some l => negb (obs2_eqb l (d_obs c))
+  | Some l => negb (obs2_eqb l (d_obs c)) ||
+              (d_drained c && match final2 (ginit (d_cfg c) (d_attempts c)) (d_dials c) (d_ops c) with
+                              | Some g => negb (all_done g)
+                              | None => true
+                              end)
   end.
+Definition case2_fresh (c : case2) : bool :=
+  ops2_fresh (own_tab (d_own c)) (ginit (d_cfg c) (d_attempts c)) (d_dials c) (d_ops c).
+Definition fresh_cases2 (cs : list case2) : list Z := map d_id (filter case2_fresh cs).
 
 (* C01 on the observed events: success answers only for pushes whose rows are all in accepted blocks; at most one
    answer per push; after a drain every push has been answered *)
